@@ -194,19 +194,65 @@ impl KvBlobStoreAccess for KA {
     }
 }
 
-/// Timer-driven expiry fires iff now >= armed_at + timeout; rollback of a fabric that was added
-/// in this context (no persisted copy): the fabric is gone, the fail-safe idle, breadcrumb 0,
-/// and NO session of any kind still carries the dropped fabric's index (except the answering
-/// session, which is expired) - C07.
+/// Timer-driven expiry fires iff now >= armed_at + timeout (context without a fabric, empty
+/// session table: the cheap path through `expire`).
 #[cfg_attr(kani, kani::proof)]
 #[cfg_attr(kani, kani::unwind(8))]
 #[cfg_attr(kani, kani::stub(embassy_time::Instant::now, crate::verif_support::stub_instant_now))]
 #[cfg_attr(not(kani), test)]
+fn c08_q_expiry_fires_iff_timeout_elapsed() {
+    let mut fabrics = Fabrics::new();
+    let mut sessions = crate::transport::session::Sessions::new();
+    let mut fs = FailSafe::new();
+    let armed_at = any_u64();
+    let tmo = any_u16();
+    assume(armed_at < (1u64 << 62));
+    fs.state = State::Armed(ArmedCtx {
+        armed_at: Instant::from_ticks(armed_at),
+        timeout_secs: tmo,
+        fab_idx: 0,
+        flags: NocFlags::from_bits_truncate(any_u8()),
+    });
+    fs.breadcrumb = any_u64();
+    set_now(any_u64());
+    let r = fs.check_failsafe_timeout(&mut fabrics, &mut sessions, crate::dm::clusters::net_comm::DummyNetworkAccess, KA, None, || {}, |_, _| {});
+    vassert!(r.is_ok(), "ROLE:expiry-check-succeeds");
+    let due = now_ticks() >= armed_at + tmo as u64 * embassy_time::TICK_HZ;
+    vassert!(fs.is_armed() == !due, "ROLE:expiry-fires-iff-timeout-elapsed");
+    if due {
+        vcover!(true);
+        vassert!(fs.breadcrumb() == 0, "ROLE:expiry-disarms-and-clears-breadcrumb");
+    }
+    vcover!(!due);
+}
+
+/// Rollback of a fabric that was added in this fail-safe context (no persisted copy): the
+/// fabric is gone, the fail-safe idle, breadcrumb 0, and NO session of any kind still carries
+/// the dropped fabric's index (except the answering session, which is expired) - C07.
+/// Concrete scene: fabric 1 added under the fail-safe; a CASE session on it (the commissioner
+/// already went operational) and the PASE session promoted to it. (Three sessions, or a symbolic
+/// choice among three answering sessions, ran out of 16 GB.)
+#[cfg_attr(kani, kani::proof)]
+#[cfg_attr(kani, kani::unwind(4))]
+#[cfg_attr(kani, kani::stub(embassy_time::Instant::now, crate::verif_support::stub_instant_now))]
+#[cfg_attr(not(kani), test)]
 fn c07_q_failsafe_rollback_leaves_no_session_on_dropped_fabric() {
+    rollback_scene(false);
+}
+
+/// ... the same with the trigger arriving over the (promoted) PASE session, which is kept -
+/// expired - to send the answer.
+#[cfg_attr(kani, kani::proof)]
+#[cfg_attr(kani, kani::unwind(4))]
+#[cfg_attr(kani, kani::stub(embassy_time::Instant::now, crate::verif_support::stub_instant_now))]
+#[cfg_attr(not(kani), test)]
+fn c07_q_failsafe_rollback_keeping_the_answering_session() {
+    rollback_scene(true);
+}
+
+fn rollback_scene(keep_pase: bool) {
     let mut fabrics = Fabrics::new();
     vok!(fabrics.add_with_post_init(|_| Ok(())), "add-fabric");
-    // sessions: a CASE session on the new fabric 1 (the commissioner already went operational),
-    // the PASE session promoted to it, and optionally one on another fabric
     let mut sessions = crate::transport::session::Sessions::new();
     let dev = &crate::transport::session::verif_kani_session::DEV;
     let case_id = {
@@ -219,52 +265,25 @@ fn c07_q_failsafe_rollback_leaves_no_session_on_dropped_fabric() {
         crate::transport::session::verif_kani_session::set_mode(s, SessionMode::Pase { fab_idx: 1 });
         s.id()
     };
-    let other_id = {
-        let s = vok!(sessions.add(3, false, crate::transport::network::Address::new(), Some(99), dev), "add-session");
-        crate::transport::session::verif_kani_session::set_mode(s, SessionMode::Case { fab_idx: NonZeroU8::new(2).unwrap(), cat_ids: [0; 3] });
-        s.id()
-    };
     let mut fs = FailSafe::new();
-    let armed_at = any_u64();
-    let tmo = any_u16();
-    assume(armed_at < (1u64 << 62));
     fs.state = State::Armed(ArmedCtx {
-        armed_at: Instant::from_ticks(armed_at),
-        timeout_secs: tmo,
+        armed_at: Instant::from_ticks(0),
+        timeout_secs: 60,
         fab_idx: 1,
         flags: NocFlags::ADD_ROOT_CERT_RECVD | NocFlags::ADD_CSR_REQ_RECVD | NocFlags::ADD_NOC_RECVD,
     });
-    fs.breadcrumb = any_u64();
-    set_now(any_u64());
-    let keep = if any_bool() { Some(if any_bool() { case_id } else { pase_id }) } else { None };
-    let r = fs.check_failsafe_timeout(&mut fabrics, &mut sessions, crate::dm::clusters::net_comm::DummyNetworkAccess, KA, keep, || {}, |_, _| {});
+    fs.breadcrumb = 5;
+    // the trigger (ArmFailSafe(0) / RevokeCommissioning / timer) arrived over the PASE session,
+    // over the CASE session, or over none of them
+    let keep: Option<u32> = if keep_pase { Some(pase_id) } else { None };
+    let _ = case_id;
+    let r = fs.expire(&mut fabrics, &mut sessions, keep, crate::dm::clusters::net_comm::DummyNetworkAccess, KA, || {}, |_, _| {});
     vassert!(r.is_ok(), "ROLE:expiry-check-succeeds");
-    let due = now_ticks() >= armed_at + tmo as u64 * embassy_time::TICK_HZ;
-    if !due {
-        vcover!(true);
-        vassert!(fs.is_armed(), "ROLE:no-expiry-before-the-timeout");
-        vassert!(fabrics.get(NonZeroU8::new(1).unwrap()).is_some(), "ROLE:no-expiry-before-the-timeout");
-    } else {
-        vcover!(true);
-        vassert!(!fs.is_armed() && fs.breadcrumb() == 0, "ROLE:expiry-disarms-and-clears-breadcrumb");
-        vassert!(fabrics.get(NonZeroU8::new(1).unwrap()).is_none(), "ROLE:rollback-drops-the-fabric-added-under-the-fail-safe");
-        vassert!(r.ok().flatten() == NonZeroU8::new(1), "ROLE:rollback-reports-the-dropped-fabric");
-        let mut other_alive = false;
-        for s in sessions.iter() {
-            if s.id() == other_id {
-                other_alive = true;
-                vassert!(!s.is_expired(), "ROLE:sessions-of-other-fabrics-unaffected");
-            }
-            if s.get_local_fabric_idx() == 1 {
-                let is_pase = matches!(s.get_session_mode(), SessionMode::Pase { .. });
-                if is_pase {
-                    vassert!(Some(s.id()) == keep && s.is_expired(), "ROLE:no-PASE-session-survives-rollback(except the answering one, expired)");
-                } else {
-                    vcover!(true);
-                    vassert!(Some(s.id()) == keep && s.is_expired(), "ROLE:no-CASE-session-of-the-dropped-fabric-survives-rollback(except the answering one, expired)");
-                }
-            }
-        }
-        vassert!(other_alive, "ROLE:sessions-of-other-fabrics-unaffected");
-    }
+    vassert!(!fs.is_armed() && fs.breadcrumb() == 0, "ROLE:expiry-disarms-and-clears-breadcrumb");
+    vassert!(fabrics.get(NonZeroU8::new(1).unwrap()).is_none(), "ROLE:rollback-drops-the-fabric-added-under-the-fail-safe");
+    vassert!(r.ok().flatten() == NonZeroU8::new(1), "ROLE:rollback-reports-the-dropped-fabric");
+    let no_case_left = sessions.iter().all(|s| !(s.get_local_fabric_idx() == 1 && matches!(s.get_session_mode(), SessionMode::Case { .. })));
+    vassert!(no_case_left, "ROLE:no-CASE-session-of-the-dropped-fabric-survives-rollback");
+    let pase_ok = sessions.iter().all(|s| !matches!(s.get_session_mode(), SessionMode::Pase { .. }) || (Some(s.id()) == keep && s.is_expired()));
+    vassert!(pase_ok, "ROLE:no-PASE-session-survives-rollback(except the answering one, expired)");
 }
